@@ -17,7 +17,7 @@ var tableKeyKinds = []core.Kind{core.KBool, core.KI8, core.KI16, core.KI32, core
 // value forms: 8 scalars, binary, *struct, struct by value, map, set, list
 var tableValForms = []string{"bool", "i8", "i16", "i32", "i64", "double", "string", "enum", "binary", "*struct", "struct", "map", "set", "list"}
 
-var tableCounts = []int{0, 1, 2, 8, 9, 130}
+var tableCounts = []int{0, 1, 2, 8, 9, 27, 55, 111, 130}
 
 func tableScalar(k core.Kind) *core.TypeSpec {
 	if k == core.KEnum {
